@@ -58,6 +58,27 @@ def one(ctx, rec, name, kind, conf, shape, tag):
             ctx.disagree("Lean monitor rejects an observed trace the independent monitor accepts", case, proj, a)
 
 
+ODD_NAMES = ["old.Radicale.cache", "x.Radicale.tmp-y", "a.Radicale.lock", "b.Radicale.props", "~tilde", "c.Radicale.cache.ics"]
+
+
+def odd_name_kinds():
+    """names that merely *contain* the storage's reserved words (only a leading '.Radicale' is reserved): they are
+    ordinary collections / items and must be written with the same care"""
+    P, ch, L = scenarios.P, fsobs.chars, scenarios.LOGIN
+    k = {}
+    for i, nm in enumerate(ODD_NAMES):
+        href = nm if nm.endswith(".ics") else nm + ".ics"
+        k["put_new_oddname_%d" % i] = ("PUT", "/u/cal/" + href, scenarios.ev("odd%d" % i), {}, L,
+                                       [{"call": "upload", "coll": P("u", "cal"), "href": ch(href)}], 201)
+        if not nm.endswith(".ics"):
+            k["mkcalendar_oddname_%d" % i] = ("MKCALENDAR", "/u/%s/" % nm, None, {}, L,
+                                              [{"call": "create", "coll": P("u", nm), "props": True, "missing": 1, "exists": False}], 201)
+            k["put_whole_oddname_%d" % i] = ("PUT", "/u/%s/" % nm, scenarios.cal(["w1", "w2"]), {"CONTENT_TYPE": "text/calendar"}, L,
+                                             [{"call": "create", "coll": P("u", nm), "props": True,
+                                               "items": [ch("w1.ics"), ch("w2.ics")], "missing": 1, "exists": False}], 201)
+    return k
+
+
 def whole_n(n):
     uids = ["n%03d" % i for i in range(n)]
     return ("PUT", "/u/bulk/", scenarios.cal(uids), {"CONTENT_TYPE": "text/calendar"}, scenarios.LOGIN,
@@ -73,7 +94,8 @@ def run(ctx):
                     "kernel: fsync makes the named file / directory durable"]
     ctx.assumptions += ["cache, lock and temporary names are exempt (rebuilt or ignored)", "RENAME_EXCHANGE available (atomic branch)"]
     rec = fsobs.Recorder()
-    kinds = scenarios.kinds()
+    kinds = dict(scenarios.kinds())
+    kinds.update(odd_name_kinds())
     confs = [("fsync", {"storage": {"_filesystem_fsync": "True"}, "auth": {"type": "none"}})]
     if ctx.tier == "thorough":
         confs.append(("fsync+cachesub", {"storage": {"_filesystem_fsync": "True", "use_cache_subfolder_for_item": "True",
